@@ -23,7 +23,24 @@ RNG — and random schedules with more preemptions beyond.  All waits have timeo
 deadlock or a runaway execution is an infrastructure error (exit 2), never a violation.
 
 Scenarios: (a) handler contexts in one thread vs requests in another, one Runtime object entered
-by several threads, inherit(); (b) concurrent Overloaded.register / Dataset.register; (c) concurrent
+by several threads, inherit(); (a-lib) the same with the thread programs built from the library's OWN context
+managers and derived-runtime helpers - labrea.logging.disabled(), labrea.cache.disabled(), runtime.handle(type,
+handler) and runtime.handle(mapping), Runtime.handle on a runtime object in both forms, runtime.inherit() - nested
+in either order inside the thread's own handle() blocks and entered repeatedly (`with labrea.logging.disabled():
+request` in a loop), by 2-3 threads whose current runtimes differ (own handle() blocks with different tags, a
+thread on its default runtime, one Runtime object and a runtime derived from it, a worker that inherits).
+Observed request types: two test types, LogRequest and CacheExistsRequest, each with a tagged default registered
+in the setup and tagged handlers in the threads' own blocks; tag 0 is the library's own `disabled` handler of the
+type (None / False), and a request that reaches the python logger counts as an error.  Six directed scenarios
+always run, the seed adds random programs over the same operations (quick 1, thorough 4).  Yield points in
+(a-lib): lock boundaries + every line / shared-memory opcode of labrea/runtime.py, labrea/logging.py and
+labrea/cache.py (the modules in which these helpers live); exploration with one reservoir per number of
+preemptions as in (d) below, so that ALL single-preemption schedules at op and line level are run (opcode level:
+sampled, reported under sampled_levels).  Model correspondence in (a-lib): a library context manager is the
+model's `h x` (handle on the caller's current runtime) with the fixed handler 0 for its request type, so the
+committed steps run through the same Lean model (drv_runtime sched) as in (a); of the three request types
+cache.disabled() handles only CacheExistsRequest is observed, and "the log request did not reach the python
+logger" has no model counterpart - both are judged by the solo-run oracle only; (b) concurrent Overloaded.register / Dataset.register; (c) concurrent
 evaluations of one cached dataset with different / equal options; (d) the same for cached datasets
 whose dependency graph contains a USER-BUILT node, defined outside dataset.py / cache.py and hence one
 object shared by every thread: WithOptions / WithDefaultOptions (around an option, a section, a cached
@@ -46,7 +63,7 @@ point while the others run to completion; for either starting order where the th
 things) are run whenever a depth has at most caps[1] of them - with the quick caps that is every
 two-thread scenario at line level and the lighter ones at opcode level; larger levels are sampled and
 reported under sampled_levels - independent of how many two-preemption schedules there are.
-Oracles on the implementation: (a) every thread's observations equal those of its own program run
+Oracles on the implementation: (a), (a-lib) every thread's observations equal those of its own program run
 alone (threads that inherit: the handlers the parent had at the step inherit committed), computed by
 a small independent interpreter over the observed order of atomic steps; (b) every registered key is
 present afterwards; (c) every evaluation returns the value of its own options; (d) as (c), the value of
@@ -83,6 +100,8 @@ SPEC = PropSpec(
         "the deterministic scheduler (sys.settrace + semaphores) in harness/props/C15.py and lean/DrvRuntime.lean (unverified glue)",
         "CPython 3.12 trace events: a thread can only be preempted at the explored yield points "
         "(line / shared-memory opcode boundaries inside labrea/{runtime,overload,cache,dataset}.py, lock boundaries; "
+        "in the library-context-manager scenarios (a-lib): lines / shared-memory opcodes of labrea/{runtime,logging,cache}.py, "
+        "the modules in which logging.disabled, cache.disabled, handle, Runtime.handle and inherit live; "
         "in the shared-node scenarios (d): lines of labrea/cache.py, and lines / shared-memory opcodes of the modules defining "
         "the shared nodes - labrea/{option,conditional,coalesce,template,iterable,pipeline,application,arguments,overload,"
         "dataset,types}.py - in method frames running on a shared node object and (types.py excepted) in code without `self`)",
@@ -94,6 +113,9 @@ SPEC = PropSpec(
         "default handlers are not registered concurrently with requests (registration is global by design)",
         "thread programs are short (2-3 threads, a few operations each); schedules beyond the preemption bound are sampled",
         "handler bodies are tags; values of cached datasets are pure functions of their options",
+        "(a-lib): a library context manager (logging.disabled, cache.disabled) corresponds to the model's handle-on-the-current-"
+        "runtime with a fixed handler (tag 0) for its request type; the defaults of LogRequest / CacheExistsRequest are replaced "
+        "by tags while a scenario runs and restored afterwards",
         "(d): the expected value of a thread is what its evaluation returns when run alone on a fresh graph (sequential "
         "semantics are the other properties' business); option dictionaries are distinct objects per thread and not mutated",
     ],
@@ -1297,6 +1319,23 @@ def uses_inherit(items) -> bool:
     return False
 
 
+HELPER_NAMES = {"hl": "labrea.logging.disabled()", "hd": "labrea.cache.disabled()", "h": "runtime.handle(type, handler) / (mapping of 2+)",
+                "hm": "runtime.handle(mapping)", "d": "Runtime.handle(type, handler) / (mapping of 2+) on a runtime object",
+                "dm": "Runtime.handle(mapping) on a runtime object", "i": "runtime.inherit(thread)", "c": "runtime.current_runtime()",
+                "W": "with <runtime>: (enter / exit)", "r": "request.run()"}
+
+
+def helper_calls(items) -> Dict[str, int]:
+    out: Dict[str, int] = {}
+    for it in items:
+        if it[0] in HELPER_NAMES:
+            out[HELPER_NAMES[it[0]]] = out.get(HELPER_NAMES[it[0]], 0) + 1
+        for sub in ((it[2],) if it[0] == "W" else (it[1],) if it[0] == "Y" else ()):
+            for k, v in helper_calls(sub).items():
+                out[k] = out.get(k, 0) + v
+    return out
+
+
 def allowed_ok(got: List[str], spec: List[List[str]]) -> bool:
     return len(got) == len(spec) and all(g in a for g, a in zip(got, spec))
 
@@ -1745,8 +1784,11 @@ def _explore(ctx: Ctx, thorough: bool, scns, jobs, background) -> Exploration:
     checked = 0
     kinds: Dict[str, int] = {}
     graph_cov: Dict[str, Any] = {}
+    lib_cov: Dict[str, Any] = {"scenarios": 0, "executions": 0, "distinct_outcomes": 0, "traced_files": [],
+                               "helper_calls_in_programs": {}, "executions_by_level": {}}
     for idx, ((name, scn), job) in enumerate(zip(scns, jobs)):
-        kinds[scn["kind"]] = kinds.get(scn["kind"], 0) + 1
+        kname = "ctx-lib" if scn.get("lib") else scn["kind"]
+        kinds[kname] = kinds.get(kname, 0) + 1
         try:
             res = background[idx].result()[0]
         except Infra as e:
@@ -1767,6 +1809,16 @@ def _explore(ctx: Ctx, thorough: bool, scns, jobs, background) -> Exploration:
             g["executions"] += st["executions"]
             g["traced_files"] = outs[0]["outcome"]["traced"]
             g["shared_node_classes"] = outs[0]["outcome"]["shared_node_classes"]
+        if scn.get("lib") and outs:
+            lib_cov["scenarios"] += 1
+            lib_cov["executions"] += st["executions"]
+            lib_cov["distinct_outcomes"] += len(outs)
+            lib_cov["traced_files"] = sorted(set(lib_cov["traced_files"]) | set(outs[0]["outcome"]["traced"]))
+            for th in scn["threads"]:
+                for opname, cnt in helper_calls(th).items():
+                    lib_cov["helper_calls_in_programs"][opname] = lib_cov["helper_calls_in_programs"].get(opname, 0) + cnt
+            for lv, cnt in st["by_level"].items():
+                lib_cov["executions_by_level"][lv] = lib_cov["executions_by_level"].get(lv, 0) + cnt
         mlines = model_lines(scn, [o["outcome"] for o in outs])
         if len(mlines) != len(outs):
             raise Infra("drv_runtime returned a wrong number of lines")
@@ -1805,8 +1857,11 @@ def _explore(ctx: Ctx, thorough: bool, scns, jobs, background) -> Exploration:
         "granularities": ["op", "line", "opcode"],
         "scenario_kinds": {"a handler contexts (ctx)": kinds.get("ctx", 0), "b register (reg)": kinds.get("reg", 0),
                            "c cached dataset (cache)": kinds.get("cache", 0),
+                           "a-lib handler contexts through the library's own context managers / derived-runtime helpers "
+                           "(ctx, lib)": kinds.get("ctx-lib", 0),
                            "d cached dataset over shared user-built nodes (graph)": kinds.get("graph", 0)},
         "shared_node_family": graph_cov,
+        "library_context_manager_family": lib_cov,
     }
     return Exploration(findings, cov)
 
